@@ -74,12 +74,14 @@ def streams(r, cls, tier):
     if g:
         out["grammar"] = [g(r) for _ in range(n)]
         near = []
-        for v in gens.near_pool(r, cls, n):
-            near.append(v.string)
-        # every word the class's own source knows, once, next to its base (adjacent entries get compared)
+        # every word the class's own source knows, once, next to its base (adjacent entries get compared); first, so that
+        # a check that truncates its pool keeps them
         for b, x in gens.mined_pairs(r, cls, 80 if tier == "quick" else 400):
             near += [b, x]
+        for v in gens.near_pool(r, cls, n):
+            near.append(v.string)
         out["near"] = near
+        out["grammar"], out["near"] = out["grammar"], out["near"]
     out["small"] = small_alphabet_strings(name, 120 if tier == "quick" else 2500, r)
     mal = []
     base = out.get("grammar", ["1.0"])
